@@ -167,10 +167,12 @@ def base_conf(d, start_s, stop_s, dt, outper, forcing_pattern, gridfile=None, ad
 def run(conf, d, name="ladim.yaml", fmt="yaml"):
     """Run ladim.main.main on `conf` in directory d. Returns 'ok', 'exit<code>' or the exception class name."""
     from ladim.main import main
-    p = Path(d) / name
     if isinstance(conf, (dict,)):
+        p = Path(d) / name
         with open(p, "w") as f:
             yaml.safe_dump(conf, f)
+    else:
+        p = Path(conf)        # an existing (or deliberately missing) configuration file
     logging.disable(logging.CRITICAL)
     cwd = os.getcwd()
     os.chdir(d)
